@@ -86,10 +86,13 @@ CONSTANTS
   InlineData,  \* BOOLEAN: also descriptors with an inline Data field
   Conc,        \* config.Host.ReqConcurrent of the registry (regclient's default is 3)
   Probes,      \* BOOLEAN: the caller may also ask for its position / try an arbitrary seek
-  Exts,        \* subset of BOOLEAN: descriptors with an external URL (descriptor.URLs)
+  Exts,        \* subset of 0..2: number of external URLs of the descriptor (descriptor.URLs)
   KeepSlots,   \* BOOLEAN: TRUE = throttle handling before the repair (findings/C01-2.md)
   TarUnverified, \* BOOLEAN: TRUE = tar paths as found, bypassing BReader.Read (findings/C01-1.md)
   MTs,         \* subset of BOOLEAN: the descriptor carries a media type (FALSE + size 0 = digest only)
+  Sts,         \* status of a 2xx reply: subset of {"std" (200, 206 for a Range request), "alt"
+               \* (206 for a plain request, 200 for a Range request)}
+  DropKinds,   \* how a cut body fails: subset of {"ueof" (io.ErrUnexpectedEOF), "reset" (another error)}
   DigestHdrs   \* Docker-Content-Digest of a 2xx reply: subset of {"absent", "echo" (what was asked
                \* for), "served" (digest of what the reply's source holds), "servedother" (the same
                \* with the other algorithm), "garbage"}
@@ -114,7 +117,7 @@ VARIABLES
   cst,       \* "reading" | "clean" | "error" (observation: how the stream ended)
   ret,       \* last return value seen by the caller
   seeks, again,
-  extused    \* the external URL of the descriptor is being used (scheme/reg/blob.go:66)
+  extused    \* how many external URLs of the descriptor have been tried (scheme/reg/blob.go:66)
 
 tvars == <<conn, readCur, readMax, rdone, retry, backoff, held, drops, fails>>
 rvars == <<lim, rbytes, bsize, hashed, bdig>>
@@ -167,7 +170,7 @@ Init ==
      \E sch \in Schemes : \E v \in Vias :
      \E w \in (IF sch = "reg" THEN Withs ELSE {FALSE}) : \E ch \in (IF sch = "reg" THEN Chunks ELSE {Big}) :
      \E lt \in (IF sch = "ocidir" /\ sv # c THEN BOOLEAN ELSE {FALSE}) :
-     \E ex \in (IF sch = "reg" THEN Exts ELSE {FALSE}) :
+     \E ex \in (IF sch = "reg" THEN Exts ELSE {0}) :
      \E mt \in (IF sch = "reg" THEN MTs ELSE {TRUE}) :
         scn = [intended |-> c, size |-> sz, served |-> sv, data |-> d, scheme |-> sch, via |-> v,
                with |-> w, chunk |-> ch, late |-> lt, ext |-> ex, mt |-> mt]
@@ -177,7 +180,7 @@ Init ==
   /\ held = 0 /\ drops = 0 /\ fails = 0
   /\ lim = NoLim /\ rbytes = 0 /\ bsize = 0 /\ hashed = <<>> /\ bdig = <<>>
   /\ got = <<>> /\ cst = "reading" /\ ret = [seq |-> 0, op |-> "none", n |-> 0, err |-> "none"]
-  /\ seeks = 0 /\ again = 0 /\ extused = FALSE
+  /\ seeks = 0 /\ again = 0 /\ extused = 0
 
 \* types/blob/reader.go:NewReader: LimitRead + TeeReader + digester.  The descriptor is completed
 \* from the response headers field by field (reader.go:48-60): the media type from Content-Type when
@@ -222,7 +225,9 @@ BodyRead(k, with, chunk) ==
       rest == Drop(conn.data, n)
       fin == rest = <<>> /\ (n = 0 \/ with)
   IN [n |-> n, data |-> Take(conn.data, n), rest |-> rest,
-      err |-> IF fin THEN (IF conn.end = "eof" THEN "eof" ELSE "ueof") ELSE "none"]
+      err |-> IF fin THEN (CASE conn.end = "eof" -> "eof" [] conn.end = "reset" -> "reset"
+                                [] OTHER -> "ueof")
+              ELSE "none"]
 
 \* Resp.next, first lines: a response that restarts its request (resume, Seek) gives back the
 \* throttle slot it kept for the previous request.  KeepSlots = TRUE is the code before the repair
@@ -272,6 +277,9 @@ RespRead(k) ==
           /\ UNCHANGED <<readMax, retry, drops, fails>>
           /\ IF b.err = "none"
              THEN /\ Deliver(b.n, b.data, "none")
+                  /\ UNCHANGED <<rdone, backoff, pc, why, pend, held>>
+             ELSE IF b.err = "reset"   \* neither io.EOF nor io.ErrUnexpectedEOF: passed on (http.go:591)
+             THEN /\ Deliver(b.n, b.data, "reset")
                   /\ UNCHANGED <<rdone, backoff, pc, why, pend, held>>
              ELSE IF cur2 >= readMax
              THEN /\ rdone' = TRUE /\ backoff' = BackoffReset
@@ -353,19 +361,23 @@ Fail ==
 OpenFailed ==
   /\ pc = "openfailed"
   /\ UNCHANGED <<scn, why, pend, src, conn, rdone, backoff, held, drops, fails, rvars, got, seeks, again>>
-  /\ IF scn.ext /\ ~extused
-     THEN /\ extused' = TRUE /\ pc' = "req"
+  /\ IF extused < scn.ext
+     THEN /\ extused' = extused + 1 /\ pc' = "req"
           /\ retry' = 0 /\ readCur' = 0 /\ readMax' = scn.size
           /\ UNCHANGED <<cst, ret>>
      ELSE /\ pc' = "stopped" /\ cst' = "error" /\ ret' = R("open", 0, "error")
           /\ UNCHANGED <<extused, retry, readCur, readMax>>
 
 \* the request in flight got a usable reply
-Succeed(body, end, clv) ==
+Succeed(body, end, clv, st) ==
   /\ conn' = [data |-> body, end |-> end]
   /\ rdone' = FALSE
-  /\ pc' = "ready" /\ pend' = NoPend
-  /\ CASE why = "open" ->
+  /\ pend' = NoPend
+  /\ pc' = IF why = "open" /\ st = "alt" THEN "stopped" ELSE "ready"
+  /\ CASE why = "open" /\ st = "alt" ->   \* scheme/reg/blob.go:92: a 2xx other than 200 is refused
+            /\ cst' = "error" /\ ret' = R("open", 0, "error")
+            /\ UNCHANGED <<rvars, got>>
+       [] why = "open" ->
             /\ SetupReader(IF scn.size = 0 THEN Max(clv, 0) ELSE scn.size)   \* reader.go:53
             /\ ret' = R("open", 0, "none")
             /\ UNCHANGED <<got, cst>>
@@ -396,9 +408,11 @@ Srcs == IF scn.served = scn.intended THEN {"served"} ELSE {"served", "intended"}
 AllReplies ==
   IF RangeReq
   THEN [src : Srcs, start : {readCur, 0, readCur + 1}, cl : {"right"},
-        cr : {"honest", "lying", "absent"}, cut : {NoCut} \cup 0..(MaxLen + 1), dh : DigestHdrs]
-  ELSE [src : Srcs, start : {0}, cl : {"right", "absent", "plus", "minus"},
-        cr : {"honest"}, cut : {NoCut} \cup 0..(MaxLen + 1), dh : DigestHdrs]
+        cr : {"honest", "lying", "absent"}, cut : {NoCut} \cup 0..(MaxLen + 1), dh : DigestHdrs,
+        st : Sts, dk : DropKinds]
+  ELSE [src : Srcs, start : {0}, cl : {"right", "absent", "garbage", "plus", "minus"},
+        cr : {"honest"}, cut : {NoCut} \cup 0..(MaxLen + 1), dh : DigestHdrs,
+        st : Sts, dk : DropKinds]
 
 \* what the registry may answer; generator configs narrow it (Replies <- HonestReplies)
 Replies == AllReplies
@@ -406,7 +420,7 @@ Replies == AllReplies
 ServeOK(r) ==
   LET full == Drop(SrcOf(r.src), r.start)
       body == IF r.cut = NoCut THEN full ELSE Take(full, r.cut)
-      clv == CASE r.cl = "absent" -> -1 [] r.cl = "right" -> Len(full)
+      clv == CASE r.cl \in {"absent", "garbage"} -> -1 [] r.cl = "right" -> Len(full)   \* unparsable = none
                [] r.cl = "plus" -> Len(full) + 1 [] OTHER -> Len(full) - 1
   IN
   /\ pc = "req" /\ retry <= RetryLimit
@@ -414,6 +428,7 @@ ServeOK(r) ==
   /\ r.cut # NoCut => (drops < MaxDrops /\ r.cut <= Len(full))
   /\ r.cl = "minus" => Len(full) > 0
   /\ r.cr = "lying" => r.start # readCur
+  /\ r.cut = NoCut => r.dk = (CHOOSE d \in DropKinds : TRUE)      \* dk only matters for a cut body
   /\ drops' = IF r.cut = NoCut THEN drops ELSE drops + 1
   /\ held < Conc                                                             \* pqueue.Acquire
   /\ retry' = retry + 1
@@ -427,7 +442,8 @@ ServeOK(r) ==
              ELSE \* resp.throttleDone = throttleDone: the slot of this request is kept until Close
                   \* or until the response restarts its request
                   /\ held' = held + 1
-                  /\ Succeed(body, IF r.cut = NoCut THEN "eof" ELSE "drop", clv)
+                  /\ Succeed(body, IF r.cut = NoCut THEN "eof" ELSE IF r.dk = "reset" THEN "reset" ELSE "drop",
+                             clv, r.st)
 
 ReadAny == \E k \in KS : Read(k)
 ServeErrAny == \E kind \in {"neterr", "http500", "http404"} : ServeErr(kind)
